@@ -88,7 +88,7 @@ fn max_enc(c: &Case) -> usize {
     m
 }
 fn max_head(c: &Case) -> usize {
-    let mut m = head_len(HeadKind::E431);
+    let mut m = head_len(HeadKind::E431).max(head_len(HeadKind::E431After));
     for h in &c.handlers {
         for a in h {
             if let HAct::Respond(b) = a {
@@ -418,6 +418,7 @@ fn gen_case(rng: &mut Rng, thorough: bool) -> Case {
                     wr: { let st = rng.below(5); wr_script(rng, st) },
                     fl: if rng.chance(1, 10) { vec![F::P] } else { vec![] },
                     hw: false,
+                    rst: false,
                 });
             }
         }
@@ -436,7 +437,8 @@ fn bucket(n: usize) -> &'static str {
     }
 }
 
-fn run_one(id: String, case: Case, fix21: bool, em: &mut Emitter) {
+fn run_one(id: String, mut case: Case, fix21: bool, em: &mut Emitter) {
+    normalize(&mut case);
     prewarm(&case);
     PEAK.store(LIVE.load(Ordering::Relaxed), Ordering::Relaxed);
     let base = LIVE.load(Ordering::Relaxed);
